@@ -19,6 +19,7 @@ EXPLANATION = (
     " Added after seed round 6: D7 a table filled by a reader of ClauseDB is reset by every method that writes an attribute in the data slice of the stored value or of the tests guarding the store."
     " Added after seed round 7: D5 also requires that every extend() returns a database constructed by that call."
     " Added after seed round 8: D8 redirects are followed through the whole chain of extensions, oldest first, and every return path of the resolver consults the own table."
+    " Added after seed round 9: D9 _get_head: scenario table over own entry x parent - the own head table wins, the parent is asked only without an own entry."
 )
 TECHNIQUE = "static analysis: ownership / who-may-write rule with computed mutator set, decision-table extraction of the copy-on-write branch"
 LEVEL_TEXT = EXPLANATION
@@ -412,6 +413,48 @@ def rule_d8(repo, col):
                function=reader.qualname)
 
 
+def rule_d9(repo, col):
+    """_get_head: the extension's own head table wins over the parent's (the own entry is the copy-on-write define node that carries the clauses added in the extension; the parent's
+    entry is the define node without them)"""
+    c = repo.cls(MOD, "ClauseDB")
+    m = c.module
+    f = c.methods.get("_get_head")
+    if f is None:
+        raise AnalysisError("ClauseDB._get_head missing")
+    own = sorted({norm(x) for x in ast.walk(f.node) if isinstance(x, ast.Call) and norm(x.func) == "self.__heads.get"})
+    if len(own) != 1:
+        raise AnalysisError("_get_head: look-up in the own head table not found")
+    own = own[0]
+    paths = [p_ for p_ in dtable.extract(f.node, opaque_loops=True) if p_.end == "return"]
+    n = 0
+    for has_own, parent in ((True, True), (True, False), (False, True), (False, False)):
+        mapping = [(own + " is None", not has_own), (own + " is not None", has_own), (own, has_own), ("self.__parent", parent), ("self.__parent is None", not parent),
+                   ("self.__parent is not None", parent)]
+        ps = dtable.compatible(paths, mapping)
+        if not ps:
+            raise AnalysisError("_get_head: no path for own entry=%s parent=%s" % (has_own, parent))
+        bad = []
+        for p_ in ps:
+            v = (p_.value or "None").replace(" ", "")
+            if has_own:
+                okv = v == own.replace(" ", "")
+            elif parent:
+                # the parent's answer, or nothing when the parent's answer is known to be nothing on this path
+                okv = v.startswith("self.__parent._get_head(") or (v in ("None", own.replace(" ", "")) and any(
+                    s_.startswith("self.__parent._get_head(") and ((s_.endswith(" is None") and t_) or (s_.endswith(" is not None") and not t_)) for s_, t_, _ in p_.conds))
+            else:
+                okv = v in ("None", own.replace(" ", ""))
+            if not okv:
+                bad.append(p_.value or "None")
+        n += 1
+        col.decide("D9", m, f.node, not bad, "_get_head with%s own entry, with%s parent: %s" % ("" if has_own else "out", "" if parent else "out", "own entry" if has_own else ("parent's answer" if parent else "none")),
+                   "_get_head returns %s when the extension %s an entry of its own and %s a parent: the own entry must win - it is the copy-on-write define node holding the clauses this "
+                   "extension added; with the parent's entry first, a second-level extension redirects the base define node instead of the first extension's copy and its added clause "
+                   "is lost (p :- a. extended by p :- b. and then p :- c. gives 0.58 instead of 0.79)" % (", ".join(sorted(set(bad)))[:100], "has" if has_own else "has not", "has" if parent else "has not"),
+                   construct="_get_head: own entry=%s parent=%s" % (has_own, parent), function="ClauseDB._get_head")
+    col.floor("D9.cases", n, 4)
+
+
 def run(repo, col):
     col.rule("D1", "_add_define_node writes through _add_head(create=True)")
     col.rule("D2", "_add_head copy-on-write branch")
@@ -427,3 +470,5 @@ def run(repo, col):
     rule_d4(repo, col, memo_attrs)
     col.rule("D8", "redirects are followed through the whole chain of extensions")
     rule_d8(repo, col)
+    col.rule("D9", "_get_head: own head table before the parent's")
+    rule_d9(repo, col)
